@@ -48,6 +48,16 @@ def is_transparent(path, trait=None, method=None):
     return False
 
 
+VIEW_NAMES = ("deref", "deref_mut", "as_ref", "as_mut", "borrow", "borrow_mut", "as_slice", "as_mut_slice", "as_bytes", "as_str",
+              "as_mut_ptr", "as_ptr", "by_ref")
+
+
+def is_view(path, trait=None, method=None):
+    """Callees whose result is a reference INTO their first argument (so mutating through the result mutates the argument)."""
+    name = strip_generics(path).split("::")[-1]
+    return name in VIEW_NAMES
+
+
 def const_term(c):
     if "enum" in c:
         return ("enum", c["enum"][0], c["enum"][2])
@@ -689,7 +699,7 @@ class Ev:
                 if t["k"] == "call" and not t["dst"].get("p"):
                     f = t["fn"]
                     p = f.get("path", "")
-                    if not f.get("indirect") and is_transparent(p, f.get("trait"), f.get("trait_method")) and t["args"]:
+                    if not f.get("indirect") and is_view(p, f.get("trait"), f.get("trait_method")) and t["args"]:
                         o = t["args"][0]
                         src = o.get("cp") or o.get("mv")
                         if src is not None and not src.get("p"):
@@ -715,6 +725,9 @@ class Ev:
         """Calls (bb, callee path, arg index) that receive a reference to access path (root, fields...) or an
         extension of it, in block order."""
         out = []
+        tgt = self.access_paths().get(root) if not (1 <= root <= self.fn.nargs) else None
+        if tgt is not None and tgt[0] != root:
+            root, fields = tgt[0], tuple(tgt[1]) + tuple(fields)
         for b, t in self.fn.calls():
             if self._live is not None and b not in self._live:
                 continue
